@@ -20,7 +20,7 @@ def nextest(wt):
     return (m.group(0) if m else out[-300:]), sorted(set(failed))
 
 def run_demo(prop, n, wt, meta):
-    out_dir = '/tmp/mut/%s_out' % prop
+    out_dir = wt + '_out'
     cmd = meta.get('demo_cmd', '')
     ddir = os.path.join(out_dir, 'm%d_demo' % n)
     drs = os.path.join(out_dir, 'm%d_demo.rs' % n)
@@ -75,11 +75,12 @@ def recheck(name):
 
 def main():
     if sys.argv[1] == '--recheck': return recheck(sys.argv[2])
-    prop, n = sys.argv[1], int(sys.argv[2])
+    wid, n = sys.argv[1], int(sys.argv[2])          # wid = worktree id (C01, or C01b for a second round on the same property)
+    prop = wid[:3]
     checks = [prop]
     if '--checks' in sys.argv: checks = sys.argv[sys.argv.index('--checks') + 1].split(',')
-    wt = '/tmp/mut/%s' % prop
-    out_dir = '/tmp/mut/%s_out' % prop
+    wt = '/tmp/mut/%s' % wid
+    out_dir = '/tmp/mut/%s_out' % wid
     diff = os.path.join(out_dir, 'm%d.diff' % n)
     meta = json.load(open(os.path.join(out_dir, 'm%d_meta.json' % n)))
     res = {'property': prop, 'mutant': n, 'summary': meta.get('summary'), 'needs': meta.get('needs'), 'author': 'independent sub-agent (only the property text and a scratch worktree)', 'ran': []}
@@ -117,7 +118,7 @@ def main():
     res['checks'] = caught
     res['caught_by'] = [c for c in caught if caught[c]['exit'] == 1]
     res['ran'].append('git -C /repo apply; ' + '; '.join('./check %s --tier quick' % c for c in checks) + '; git -C /repo checkout -- .')
-    d = os.path.join(V, 'seeded', '%s_m%d' % (prop, n))
+    d = os.path.join(V, 'seeded', '%s_%sm%d' % (prop, 'r2' if wid.endswith('b') else '', n))
     os.makedirs(d, exist_ok=True)
     shutil.copy(diff, os.path.join(d, 'patch.diff'))
     ddir = os.path.join(out_dir, 'm%d_demo' % n); drs = os.path.join(out_dir, 'm%d_demo.rs' % n)
